@@ -2377,6 +2377,43 @@ def r_json_sib(E):
     if not rds or any(not isinstance(rd, ast.Constant) or not isinstance(rd.value, int) or rd.value < 3 for rd in rds):
         res.findings.append(Finding("R-JSON-SIB", "hourly rounding depth", "hourly values are no longer written with (at "
                                     "least) the documented 3 decimals by default", rel, hq.lineno, hq.name))
+    # the list of links is written position by position: a list may hold the same object twice (a journey that goes through
+    # the same step again), and an export that goes through a dict / set keyed by id writes it once
+    if "ListLinkedToModelingObj" in pm.classes:
+        lw = next((f for f in pm.own_methods("ListLinkedToModelingObj") if f.name == "to_json"), None)
+        if lw is not None:
+            res.instances += 1
+            from ..astutil import fully_expanded as _fx_lw, substitute as _sub_lw
+            lfinder = pm.helper_finder("ListLinkedToModelingObj")
+
+            def through_props(e_, depth=0):
+                if depth > 3:
+                    return e_
+
+                class P(ast.NodeTransformer):
+                    def visit_Attribute(self, node):
+                        self.generic_visit(node)
+                        if isinstance(node.value, ast.Name) and node.value.id == "self" and isinstance(node.ctx, ast.Load):
+                            h_ = lfinder(node.attr)
+                            if h_ is not None and is_property(h_):
+                                b_ = [b for b in h_.body if not (isinstance(b, ast.Expr) and isinstance(b.value, ast.Constant))]
+                                if len(b_) == 1 and isinstance(b_[0], ast.Return) and b_[0].value is not None:
+                                    from ..astutil import clone as _cl_lw
+                                    return through_props(_cl_lw(b_[0].value), depth + 1)
+                        return node
+                return P().visit(e_)
+            for r_ in [n for n in ast.walk(lw) if isinstance(n, ast.Return) and n.value is not None]:
+                from ..astutil import clone as _cl_lw2
+                ex = through_props(_cl_lw2(_fx_lw(r_.value, lw)))
+                collapsing = [x for x in ast.walk(ex) if isinstance(x, (ast.DictComp, ast.SetComp, ast.Set))
+                              or (isinstance(x, ast.Call) and norm(x.func) in ("set", "frozenset", "dict.fromkeys", "dict"))]
+                if collapsing:
+                    res.findings.append(Finding(
+                        "R-JSON-SIB", "ListLinkedToModelingObj.to_json goes through a keyed collection",
+                        f"ListLinkedToModelingObj.to_json returns `{norm(ex)[:90]}`: the ids pass through "
+                        f"`{norm(collapsing[0])[:50]}`, which keeps one entry per id — a list that holds the same object twice "
+                        f"(uj_steps = [browse, pay, browse]) is saved with one occurrence and loaded back shorter",
+                        pm.path_of("ListLinkedToModelingObj"), r_.lineno, "ListLinkedToModelingObj.to_json"))
     # a date written under a key with strftime(F) is read back from that key with strptime(…, F): same format string (a
     # named constant is read through its definition)
     def _const_str(e, tree_):
